@@ -1373,4 +1373,261 @@ theorem core_handleSupervisorEvt (w0 : W) (who : Nat) (rest : List Nat) (h : Cor
         (fun _ _ => rfl) ?_ rfl rfl
       exact (setW_setW w0.pool wid p1 p' (hp1w.trans hpw')).symm
 
+
+/-! ## The factory actor's loop -/
+
+def fkOf (inbox : List FMsg) : Nat → List Nat := fun x => finKeys x inbox
+
+theorem fkOf_finished (who key : Nat) (rest : List FMsg) :
+    fkOf (.finished who key :: rest) = fkCons (fkOf rest) who key := by
+  funext x
+  simp only [fkOf, finKeys, fkCons]
+  by_cases hx : x = who
+  · subst hx; simp
+  · have : (who == x) = false := by simp; exact fun h => hx h.symm
+    simp [this, hx]
+
+theorem handleMsg_inbox (w : W) (m : FMsg) : (w.handleMsg m).inbox = w.inbox := by
+  cases m with
+  | dispatch j => exact (ctl_dispatch w j).inbox
+  | finished who key => exact (ctl_workerFinishedJob w who key).inbox
+  | adjust n => exact (ctl_resizePool w n).inbox
+  | updateSettings d n => exact (ctl_updateSettings w d n).inbox
+  | setHandler hd => rfl
+  | drainRequests => rfl
+  | calculate =>
+    show (if w.cfg.hasCC && w.armed then { w with armed := false, blocked := true } else w.calcRest).inbox = _
+    split
+    · rfl
+    · exact (ctl_calcRest w).inbox
+  | getQueueDepth => rfl
+  | getNumActiveWorkers => rfl
+  | getAvailableCapacity => rfl
+
+theorem core_handleMsg (w : W) (m : FMsg) (rest : List FMsg) (h : Core (fkOf (m :: rest)) w) :
+    Core (fkOf rest) (w.handleMsg m) := by
+  cases m with
+  | dispatch j => exact core_dispatch w j h
+  | finished who key =>
+    rw [fkOf_finished] at h
+    exact core_workerFinishedJob w who key h
+  | adjust n => exact core_resizePool w n h
+  | updateSettings d n => exact core_updateSettings w d n h
+  | setHandler hd =>
+    exact core_mapPool (fun p => { p with handler := hd }) (fk := fkOf rest) h (fun _ => rfl) (fun _ => rfl) (fun _ => rfl)
+      (fun p hp => slotOk_inv.handler p _ hp) rfl rfl rfl (envEq_emit _ _)
+  | drainRequests => exact Core.frame (fk := fkOf rest) h ⟨rfl, rfl, rfl, envEq_emit _ _⟩
+  | calculate =>
+    show Core (fkOf rest) (if w.cfg.hasCC && w.armed then { w with armed := false, blocked := true } else w.calcRest)
+    split
+    · exact Core.frame (fk := fkOf rest) h ⟨rfl, rfl, rfl, EnvEq.refl _⟩
+    · exact core_calcRest w h
+  | getQueueDepth => exact Core.frame (fk := fkOf rest) h ⟨rfl, rfl, rfl, EnvEq.refl _⟩
+  | getNumActiveWorkers => exact Core.frame (fk := fkOf rest) h ⟨rfl, rfl, rfl, EnvEq.refl _⟩
+  | getAvailableCapacity => exact Core.frame (fk := fkOf rest) h ⟨rfl, rfl, rfl, EnvEq.refl _⟩
+
+theorem isDrained_act (w : W) : ActFrame w w.isDrained.2 ∧ w.isDrained.2.inbox = w.inbox ∧ w.isDrained.2.stopped = w.stopped := by
+  unfold W.isDrained
+  split
+  · exact ⟨ActFrame.refl _, rfl, rfl⟩
+  · exact ⟨ActFrame.refl _, rfl, rfl⟩
+  · split
+    · exact ⟨⟨rfl, rfl, rfl, EnvEq.refl _⟩, rfl, rfl⟩
+    · exact ⟨ActFrame.refl _, rfl, rfl⟩
+
+theorem afterHandle_act (w : W) : ActFrame w w.afterHandle ∧ w.afterHandle.inbox = w.inbox ∧ w.afterHandle.stopped = w.stopped := by
+  unfold W.afterHandle
+  split
+  · exact ⟨ActFrame.refl _, rfl, rfl⟩
+  · obtain ⟨f, hi, hs⟩ := isDrained_act w
+    cases hd : w.isDrained with
+    | mk d w2 =>
+      rw [hd] at f hi hs
+      simp only at f hi hs ⊢
+      split
+      · exact ⟨f.trans ⟨rfl, rfl, rfl, EnvEq.refl _⟩, hi, hs⟩
+      · exact ⟨f, hi, hs⟩
+
+/-- the invariant of a run: the factory has entered `post_stop` (it hands out nothing any more)
+or bookkeeping and actors agree -/
+def J (w : W) : Prop := w.stopped = true ∨ Core (fkOf w.inbox) w
+
+theorem j_loopStep (w w' : W) (h : J w) (hl : w.loopStep = some w') : J w' := by
+  unfold W.loopStep at hl
+  split at hl
+  · simp at hl
+  · rename_i hsb
+    have hst : w.stopped = false := by
+      cases hx : w.stopped with
+      | false => rfl
+      | true => simp [hx] at hsb
+    have hc : Core (fkOf w.inbox) w := by
+      rcases h with h | h
+      · rw [hst] at h; cases h
+      · exact h
+    split at hl
+    · simp only [Option.some.injEq] at hl; subst hl; left; rfl
+    · split at hl
+      · rename_i who rest hsup
+        simp only [Option.some.injEq] at hl; subst hl
+        right
+        have hi := (ctl_handleSupervisorEvt ({ w with env := { w.env with sup := rest } } : W) who).inbox
+        rw [hi]
+        exact core_handleSupervisorEvt w who rest hc hsup
+      · split at hl
+        · rename_i m rest hin
+          simp only [Option.some.injEq] at hl; subst hl
+          right
+          obtain ⟨f, hi, _⟩ := afterHandle_act (W.handleMsg { w with inbox := rest } m)
+          rw [hi, handleMsg_inbox]
+          refine Core.frame ?_ f
+          apply core_handleMsg
+          rw [hin] at hc
+          exact Core.frame (fk := fkOf (m :: rest)) hc ⟨rfl, rfl, rfl, EnvEq.refl _⟩
+        · simp at hl
+
+/-- an actor's record changes in a way the coupling cannot see -/
+theorem core_actorSame {w w' : W} {a a' : Actor} (h : Core fk w) (g : w.env.getActor a'.aid = some a)
+    (hw : a'.wid = a.wid) (hal : a'.alive = a.alive) (hs : a'.stopReq = a.stopReq) (hh : a'.heldJobs = a.heldJobs)
+    (h1 : w'.pool = w.pool) (h2 : w'.byActor = w.byActor) (h3 : w'.nextAid = w.nextAid)
+    (h4 : EnvEq (w.env.setActor a') w'.env) : Core fk w' := by
+  have st := envStep_setActor w.env a a' g hal
+  have gs := getActor_setActor_self w.env a a' g
+  have hga : ∀ b, w'.env.getActor b = (w.env.setActor a').getActor b := fun b => h4.getActor b
+  have hsup : w'.env.sup = w.env.sup := h4.sup.trans st.sup
+  refine ⟨h.slot.of_pool h1, by rw [h1]; exact h.nodupW, ?_, ?_, ?_, ?_, ?_, ?_, ?_⟩
+  · intro b x hb
+    rw [h3]; rw [hga] at hb
+    by_cases hba : b = a'.aid
+    · subst hba; exact h.aidLt _ a g
+    · rw [st.other b hba] at hb; exact h.aidLt b x hb
+  · intro b hb
+    rw [hsup] at hb
+    obtain ⟨x, gx, hx⟩ := h.supDead b hb
+    by_cases hba : b = a'.aid
+    · subst hba; rw [g] at gx; cases gx
+      exact ⟨a', by rw [hga]; exact gs, hal.trans hx⟩
+    · exact ⟨x, by rw [hga, st.other b hba]; exact gx, hx⟩
+  · intro p hp; rw [h1] at hp; rw [h2]; exact h.by1 p hp
+  · intro x hx; rw [h2] at hx; rw [h1]; exact h.by2 x hx
+  · intro p hp
+    rw [h1] at hp
+    by_cases hpa : p.actor = a'.aid
+    · obtain ⟨x, gx, hxw, hxa, hxd⟩ := h.sa p hp
+      rw [hpa, g] at gx; cases gx
+      refine ⟨a', by rw [hga, hpa]; exact gs, hw.trans hxw, ?_, ?_⟩
+      · intro hx; rw [hs, hh]; exact hxa (hal.symm.trans hx)
+      · intro hx; rw [hsup]; exact hxd (hal.symm.trans hx)
+    · exact (h.sa p hp).keep rfl rfl rfl (by rw [hga]; exact st.other _ hpa) hsup
+  · intro b x hb hxl hn
+    rw [hga] at hb; rw [h1] at hn
+    by_cases hba : b = a'.aid
+    · subst hba; rw [gs] at hb; cases hb
+      rw [hh, hs]
+      exact h.free _ a g (hal.symm.trans hxl) hn
+    · rw [st.other b hba] at hb; exact h.free b x hb hxl hn
+  · intro wid hn; rw [h1] at hn; exact h.fin wid hn
+
+theorem core_settleOne (w : W) (aid : Nat) (h : Core fk w) : Core fk { w with env := w.env.settleOne aid } := by
+  unfold Env.settleOne
+  cases g : w.env.getActor aid with
+  | none => exact h
+  | some a =>
+    simp only
+    have haid := getActor_aid g
+    split
+    · exact h
+    · rename_i hcond
+      have hal : a.alive = true := by
+        cases hx : a.alive with
+        | true => rfl
+        | false => simp [hx] at hcond
+      have hrun : a.running = none := by
+        cases hx : a.running with
+        | none => rfl
+        | some j => simp [hx] at hcond
+      split
+      · rename_i hstop
+        -- a worker told to stop is no slot's worker: its exit is nobody's stale completion
+        refine core_die (w' := { w with env := w.env.die aid }) h aid ?_ rfl rfl rfl rfl
+        intro p hp hpa
+        obtain ⟨x, gx, _, hxa, _⟩ := h.sa p hp
+        rw [hpa, g] at gx; cases gx
+        have := (hxa hal).1
+        rw [hstop] at this; cases this
+      · split
+        · exact h
+        · rename_i j rest hm
+          generalize ha' : ({ a with running := some j, mailbox := rest } : Actor) = a'
+          have haid' : a'.aid = aid := by subst ha'; exact haid
+          refine core_actorSame (a := a) (a' := a') h (by rw [haid']; exact g) (by subst ha'; rfl) (by subst ha'; rfl)
+            (by subst ha'; rfl) ?_ rfl rfl rfl (envEq_emit _ _)
+          subst ha'
+          simp only [Actor.heldJobs, hrun, hm, List.nil_append, List.cons_append]
+
+theorem core_settle (w : W) (h : Core fk w) : Core fk { w with env := w.env.settle } := by
+  unfold Env.settle
+  generalize w.env.actors.map (·.aid) = l
+  have : ∀ (l : List Nat) (w : W), Core fk w → Core fk { w with env := l.foldl Env.settleOne w.env } := by
+    intro l
+    induction l with
+    | nil => intro w h; exact h
+    | cons x xs ih => intro w h; exact ih _ (core_settleOne w x h)
+  exact this l w h
+
+theorem j_runQ (fuel : Nat) (w : W) (h : J w) : J (W.runQ fuel w) := by
+  induction fuel generalizing w with
+  | zero => exact h
+  | succ fuel ih =>
+    unfold W.runQ
+    cases hl : w.loopStep with
+    | some w' => simp only; exact ih _ (j_loopStep w w' h hl)
+    | none =>
+      simp only
+      have hs : J (W.tryFinishStop { w with env := w.env.settle }) := by
+        unfold W.tryFinishStop
+        rcases h with h | h
+        · left; split <;> exact h
+        · split
+          · rename_i hc
+            left
+            simp only [Bool.and_eq_true] at hc
+            exact hc.1.1
+          · right; exact core_settle w h
+      split
+      · exact hs
+      · exact ih _ hs
+
+/-- a message that is no `Finished` report joins the factory's mailbox -/
+theorem j_send (w : W) (m : FMsg) (hm : ∀ x, finKeys x [m] = []) (h : J w) : J (w.send m) := by
+  unfold W.send
+  split
+  · exact h
+  · rcases h with h | h
+    · left; exact h
+    · right
+      have : fkOf (w.inbox ++ [m]) = fkOf w.inbox := by
+        funext x; simp only [fkOf, finKeys_append, hm, List.append_nil]
+      show Core (fkOf (w.inbox ++ [m])) _
+      rw [this]
+      exact h.frame ⟨rfl, rfl, rfl, EnvEq.refl _⟩
+
+theorem j_frame {w w' : W} (h : J w) (f : ActFrame w w') (hi : w'.inbox = w.inbox) (hs : w'.stopped = w.stopped) : J w' := by
+  rcases h with h | h
+  · left; rw [hs]; exact h
+  · right; rw [hi]; exact h.frame f
+
+theorem j_advanceTo (t fuel : Nat) (w : W) (h : J w) : J (W.advanceTo t fuel w) := by
+  induction fuel generalizing w with
+  | zero => exact j_frame h ⟨rfl, rfl, rfl, ⟨rfl, rfl⟩⟩ rfl rfl
+  | succ fuel ih =>
+    unfold W.advanceTo
+    split
+    · simp only
+      apply ih
+      apply j_runQ
+      apply j_send _ _ (fun _ => rfl)
+      exact j_frame h ⟨rfl, rfl, rfl, ⟨rfl, rfl⟩⟩ rfl rfl
+    · exact j_frame h ⟨rfl, rfl, rfl, ⟨rfl, rfl⟩⟩ rfl rfl
+
 end Factory
